@@ -13,6 +13,11 @@ func main() {
 		fmt.Fprintln(os.Stderr, "usage: govc <verify|check|list|selftest> ...")
 		os.Exit(2)
 	}
+	for _, t := range strings.Split(os.Getenv("GOVC_ALSO"), ",") {
+		if t != "" {
+			alsoTags[t] = true
+		}
+	}
 	switch os.Args[1] {
 	case "verify":
 		cmdVerify(os.Args[2:])
